@@ -791,6 +791,12 @@ def main(tier, replay=None):
     if replay:
         return do_replay(run, replay)
     proof_ok = run.proof_stage()
+    # second tie: the beam statistics / Twiss getters / aperture mask are re-translated from REPO's source and proved equal to the
+    # hand-written models (Gen/StatsGenEquiv.v)
+    import translate_stage
+    tr_stats = translate_stage.translator_obligation_stats(run)
+    if tr_stats["status"] != "ok":
+        run.notes.append("translator obligation (stats): " + json.dumps(translate_stage.replay_fields_stats(tr_stats))[:600])
     # second tie (structural): segment.py, CustomTransferMap.from_merging_elements and Element.track are re-translated from
     # REPO's source text and proved equal to Lattice/{Track,Merge,Filter}.v / Beam/Moments.v (Gen/SegGenEquiv.v)
     import translate_stage
@@ -847,6 +853,9 @@ def main(tier, replay=None):
     elif trs["status"] != "ok":
         # the structural source no longer translates to the proved model; none of this run's oracles found a failing input
         run.violation(translate_stage.replay_fields_seg(trs), no_input=True)
+    elif tr_stats["status"] != "ok":
+        # the source no longer translates to the proved model and none of this run's oracles found a failing input
+        run.violation(translate_stage.replay_fields_stats(tr_stats), no_input=True)
     elif not proof_ok:
         run.violation({"kind": "proof", "broken": run.proof_problem}, no_input=True)
     return run.finish("proof")
